@@ -71,12 +71,15 @@
               map with a slider of negative curve distance"; that class is
               EMPTY FOR BOUNDED INPUTS: osu!-mode Catmull sub-paths with
               finite vertices |c| <= 2^20 whose consecutive vertices are
-              numerically equal or at least 2^-10 apart, at most 2^30
+              numerically equal or at least 2^-60 apart, at most 2^30
               vertices ([C01_curve_dist_nonneg_bounded],
               [C01_encode_never_panics_bounded]).  OPEN: the class is empty
-              without those bounds -- Catmull steps between 0 and 2^-10
-              (down to the binary32 underflow range) and coordinates beyond
-              2^20 ([C01_encode_never_panics_partial]; no counterexample in
+              without those bounds -- Catmull steps between 0 and 2^-60
+              (the binary32 underflow range; not reachable from a decoded
+              file as far as probed: decoded control points are integers
+              and no step below 2^-22 was seen) and coordinates beyond
+              2^20; and that EVERY decoded slider meets the bounds
+              ([C01_encode_never_panics_partial]; no counterexample in
               2*10^8 decoded sliders on the crate, nor in the underflow
               search of probes/C01_negdist, Q1u));
      not expressible in the model: memory safety of the `point_split`
@@ -903,11 +906,11 @@ From RM Require Import Model.Encode Model.Render Proofs.EncodingFacts Proofs.Rea
 From RM Require Proofs.FloatNonneg Proofs.CurveDistNonneg Proofs.DecodedObjects Proofs.EncodeTotal
      Proofs.TickBound Proofs.DecodeScalar Proofs.EncodeScalar Proofs.ReaderScalar Proofs.WriterOrigin
      Proofs.EncodeText Proofs.TimingPointsValues Proofs.DecodedValues Proofs.TickDistBound
-     Proofs.EncodeCompletes Proofs.CatmullSurplusFold Proofs.CatmullSurplusLen Proofs.CatmullSurplusLoop
+     Proofs.EncodeCompletes Proofs.CatmullSurplusFold Proofs.CatmullSurplusLen Proofs.CatmullSurplusSeg Proofs.CatmullSurplusLoop
      Proofs.CatmullSurplus Proofs.CatmullSurplusEncode Proofs.CatmullSurplusCheck.
 From RM Require Model.DrvEnc.
 Import Proofs.FloatNonneg Proofs.CurveDistNonneg Proofs.DecodedObjects Proofs.EncodeTotal.
-Import Proofs.CatmullSurplusFold Proofs.CatmullSurplusLen Proofs.CatmullSurplusLoop Proofs.CatmullSurplus
+Import Proofs.CatmullSurplusFold Proofs.CatmullSurplusLen Proofs.CatmullSurplusSeg Proofs.CatmullSurplusLoop Proofs.CatmullSurplus
        Proofs.CatmullSurplusEncode Proofs.CatmullSurplusCheck.
 
 (* pins: the constants the bounds below name *)
@@ -1021,19 +1024,25 @@ Print Assumptions C01_negative_dist_needs_negative_surplus.
    [C01_encode_never_panics_bounded]): the class is empty for BOUNDED osu!-mode
    Catmull sliders -- every sub-path approximate_catmull produces has finite
    vertices with |c| <= 2^20 whose consecutive vertices are numerically equal
-   or at least 2^-10 apart (no underflow in an f32 step length), those
+   or at least 2^-60 apart (no underflow in an f32 step length), those
    sub-paths have at most 2^30 vertices in total and the computed path at
    most 2^30 ([catmull_hyp], [path_small]; decidable by the sound test
    [map_boundedb]): then r_k >= d_k / 4 (triangle inequality under rounding),
    so -S <= 0.76 * (l_1 + .. + l_N), and a binary64 running sum seeded with
    S < 0 loses at most N * 2^-53 * |S| to rounding before it turns
    non-negative.
-   STILL MISSING: emptiness of the class without those bounds, i.e. for
-   Catmull sub-paths with a step strictly between 0 and 2^-10 (the f32 step
+   STILL MISSING: (a) emptiness of the class without those bounds, i.e. for
+   Catmull sub-paths with a step strictly between 0 and 2^-60 (the f32 step
    length is then relatively inaccurate, down to underflow to 0 below
-   2^-75), with a coordinate beyond 2^20, or with more than 2^30 vertices.
-   No counterexample was found by the searches recorded in the evidence
-   (probes/C01_negdist, including the underflow regime, Q1u). *)
+   2^-75), with a coordinate beyond 2^20, or with more than 2^30 vertices;
+   (b) that every DECODED slider meets the bounds (decoded control points
+   are integers within +-2^18 of the origin -- `as i32 as f32` in
+   read_point -- and the smallest non-zero Catmull step seen on 4*10^6
+   decoded sliders is 2^-21, one ulp; the bound on the sub-path coordinates
+   and the granularity are not proved).  No counterexample was found by
+   the searches recorded in the evidence (probes/C01_negdist, including
+   3.2*10^7 curves in the underflow regime, Q1u, which a decoded file
+   cannot reach). *)
 Theorem C01_encode_never_panics_partial :
   forall lm chk fuel tf lines bv w,
   decode_beatmap (dist_of_curve lm) lines = Done bv -> neg_dist_class lm bv = false ->
@@ -1129,23 +1138,32 @@ Print Assumptions C01_catmull_surplus_bound.
    sub-path approximate_catmull produces for an osu!-mode Catmull segment of
    the control points (the list [catmull_subpaths mode pts], which depends on
    the control points only) has finite vertices with |c| <= 2^20 whose
-   consecutive vertices are numerically equal or >= 2^-10 apart, and that
+   consecutive vertices are numerically equal or >= 2^-60 apart, and that
    these sub-paths have at most 2^30 vertices in total *)
 Example pin_cmax : cmax = IZR (2 ^ 30).
 Proof. reflexivity. Qed.
 Theorem C01_catmull_hyp_reading :
   forall mode pts,
   catmull_hyp mode pts <->
-  (Forall (fun cat => Forall (fun p => LengthBound.coord_le p 20) cat /\ AdjustIEEESum.segs_ok cat)
+  (Forall (fun cat => Forall (fun p => LengthBound.coord_le p 20) cat /\ CatmullSurplusSeg.csegs_ok cat)
           (catmull_subpaths mode pts) /\
    (INR (length (concat (catmull_subpaths mode pts))) <= cmax)%R).
 Proof. intros mode pts. reflexivity. Qed.
 Theorem C01_seg_ok_reading :
   forall a b : Curve.Pos,
-  AdjustIEEESum.seg_ok a b <->
+  CatmullSurplusSeg.cseg_ok a b <->
   (AdjustIEEE.R2 a = AdjustIEEE.R2 b \/
-   (Raux.bpow Zaux.radix2 (-10) <= AdjustExact.edist (AdjustIEEE.R2 a) (AdjustIEEE.R2 b))%R).
+   (Raux.bpow Zaux.radix2 (-60) <= AdjustExact.edist (AdjustIEEE.R2 a) (AdjustIEEE.R2 b))%R).
 Proof. intros a b. reflexivity. Qed.
+(* the binary32 length of a segment at least 2^-60 long is exact up to 3.1 * 2^-24 *)
+Theorem C01_f32_step_length_relative_error :
+  forall a b : Curve.Pos,
+  LengthBound.coord_le a 20 -> LengthBound.coord_le b 20 -> CatmullSurplusSeg.cseg_ok a b ->
+  is_finite (f64_of_f32 (Curve.plen (Curve.psub b a))) = true /\
+  AdjustIEEEBase.rel (B2R (f64_of_f32 (Curve.plen (Curve.psub b a))))
+                     (AdjustExact.edist (AdjustIEEE.R2 a) (AdjustIEEE.R2 b)) (3.1 * AdjustIEEEBase.u32)%R.
+Proof. exact CatmullSurplusSeg.cseg_rel. Qed.
+Print Assumptions C01_f32_step_length_relative_error.
 
 (* THE CURVE DISTANCE OF A BOUNDED OSU!-MODE CATMULL SLIDER IS NOT NEGATIVE,
    for every requested length that is absent or positive *)
@@ -1257,6 +1275,40 @@ Example C01_bounded_nonvacuous :
   l4_surplus = [0xbe5a000000000000; 4; 100] /\ 2 ^ 63 <= 0xbe5a000000000000 /\
   map_boundedb lm0_l4 (lines_of_text l4_text) = true.
 Proof. vm_compute. repeat split; discriminate. Qed.
+(* a decoded slider with a SHORT non-zero Catmull step (probes/C01_negdist,
+   Q1u intstep): `0,0,0,2,0,C|0:-5|0:-6|0:-3,1` has two consecutive sub-path
+   vertices one ulp apart -- the smallest non-zero squared step is in
+   [2^-42, 2^-41), the step about 2^-21 = 4.77e-7, far below 2^-10 -- and
+   meets the hypotheses (threshold 2^-60) *)
+Definition l5_text : str :=
+  lit "osu file format v14" ++ [10] ++ lit "[General]" ++ [10] ++ lit "Mode: 0" ++ [10] ++
+  lit "[TimingPoints]" ++ [10] ++ lit "0,500,4,1,0,100,1,0" ++ [10] ++
+  lit "[HitObjects]" ++ [10] ++ lit "0,0,0,2,0,C|0:-5|0:-6|0:-3,1" ++ [10].
+Definition l5_min_step_sq_log2 : list Z :=
+  match decode_beatmap (dist_of_curve lm0_l4) (lines_of_text l5_text) with
+  | Done bv =>
+      flat_map (fun h => match h_kind h with
+        | KSlider s =>
+            map (fun cat =>
+              let fix go (l : list Curve.Pos) : list Z :=
+                match l with
+                | a :: ((b :: _) as t) =>
+                    match spos a, spos b with
+                    | Some (xa, ya), Some (xb, yb) => ((xb - xa) ^ 2 + (yb - ya) ^ 2) :: go t
+                    | _, _ => go t
+                    end
+                | _ => []
+                end in
+              Z.log2 (fold_right (fun x m => if x =? 0 then m else Z.min x m) (2 ^ 600) (go cat)) - 298)
+              (catmull_subpaths (sl_mode s) (map CurveDist.conv_pcp (sl_control_points s)))
+        | _ => []
+        end) (hov_hit_objects (bmv_ho bv))
+  | _ => [99]
+  end.
+Example C01_bounded_small_step :
+  l5_min_step_sq_log2 = [-42] /\ map_boundedb lm0_l4 (lines_of_text l5_text) = true.
+Proof. vm_compute. split; reflexivity. Qed.
+
 Example C01_bounded_applies :
   exists bv, decode_beatmap (dist_of_curve lm0_l4) (lines_of_text l4_text) = Done bv /\
              Forall (obj_bounded lm0_l4) (hov_hit_objects (bmv_ho bv)) /\
